@@ -3,7 +3,7 @@
    Wrap*.v = models of the logic the momo::stdish wrappers add on top of the nested momo containers.
    Both are run (extracted) against the real momo::stdish AND libstdc++ containers on every check. *)
 From Coq Require Import ZArith List Permutation.
-From C06 Require Import Spec SpecProofs WrapOrdered WrapEq WrapErase History.
+From C06 Require Import Spec SpecProofs WrapOrdered WrapEq WrapErase History IterLoop.
 Import ListNotations.
 
 (* ===== (1) the L0 specs satisfy the std contract ===== *)
@@ -188,6 +188,27 @@ Theorem C06_unordered_multimap_step_abstraction : forall s o,
   end.
 Proof. exact mm_step_abstraction. Qed.
 Print Assumptions C06_unordered_multimap_step_abstraction.
+
+(* ===== (2c) the boundary of the claim: lookup-derived iterators are not traversable ===== *)
+
+(* erase(where) with a find()/insert()-derived iterator removes that element and returns end() ... *)
+Theorem C06_lookup_erase_returns_end : forall l i, i < length l ->
+  us_erase_at l (At i false) = Some (erase_range i (S i) l, End).
+Proof. exact lookup_erase_returns_end. Qed.
+Print Assumptions C06_lookup_erase_returns_end.
+
+(* ... so `for (it = c.find(k); it != c.end(); ) it = c.erase(it);` removes exactly ONE element (std: everything from k to
+   the end of the iteration order): this loop is outside the claim, and the generators never continue from such an iterator *)
+Theorem C06_erase_loop_from_lookup_erases_one : forall l i fuel, i < length l ->
+  erase_loop us_erase_at (S fuel) l (At i false) = (erase_range i (S i) l, 1).
+Proof. exact erase_loop_lookup_erases_one. Qed.
+Print Assumptions C06_erase_loop_from_lookup_erases_one.
+
+(* ... whereas the same loop started from a traversable iterator (begin(), ++) removes the rest of the container, as in std *)
+Theorem C06_erase_loop_from_traversable_erases_rest : forall l i, i < length l ->
+  erase_loop us_erase_at (S (length l)) l (At i true) = (firstn i l, length l - i).
+Proof. exact erase_loop_trav_erases_rest. Qed.
+Print Assumptions C06_erase_loop_from_traversable_erases_rest.
 
 (* ===== (3) non-vacuity: the pre-fix shapes of the three repaired functions violate the same statements ===== *)
 Theorem C06_unordered_erase_range_prefix_refuted : exists l first last ps,
